@@ -516,7 +516,10 @@ impl AsyncGenerator {
         generator.borrow_mut().data_mut().context = Some(generator_context);
 
         // 8. Assert: result is never an abrupt completion.
-        assert!(!result.is_throw_completion());
+        // NOTE: a runtime limit can still cut the generator off; the error has to reach the host.
+        if result.is_throw_completion() {
+            return result.consume().map(|_| ());
+        }
 
         // 9. Assert: When we return here, genContext has already been removed from the execution context stack and
         //    callerContext is the currently running execution context.
